@@ -22,6 +22,7 @@ func c14Mappings() []map[string]string {
 		{"k1": "k2", "k2": "k3"}, // chain
 		{"k1": "k1"},             // identity mapping
 		{"x": "t1", "k3": "x2"},
+		{"k1": "k2", "k2": "k1"}, // swap
 	}
 }
 
@@ -36,7 +37,7 @@ func c14Invert(m map[string]string) map[string]string {
 func verifHarness_C14_indexedFields() {
 	verifConfig("maporder", verifParam("maporder", 0)) // Go's map iteration order is unspecified: rotations explored in the thorough tier
 	universe := []string{"k1", "k2", "k3", "x"}
-	mapping := c14Mappings()[verifChoose("mapping", 8)]
+	mapping := c14Mappings()[verifChoose("mapping", len(c14Mappings()))]
 	var fields map[string]*common.Payload
 	nilMap := verifChoose("nil-fields", 2) == 1
 	payload := map[string]*common.Payload{}
@@ -50,10 +51,17 @@ func verifHarness_C14_indexedFields() {
 			}
 		}
 	}
-	// precondition of the property: keys do not collide with mapping targets
+	// precondition of the property: keys do not collide with mapping targets. A present key that is a
+	// target collides only if it stays where it is (a key that is itself renamed away, as in a chain
+	// a->b, b->c or a swap, makes room: the renaming is simultaneous)
 	for from, to := range mapping {
 		if _, isKey := fields[to]; isKey && from != to {
-			verifAssume(false)
+			if next, moved := mapping[to]; !moved || next == to {
+				verifAssume(false)
+			}
+			if _, fromPresent := fields[from]; fromPresent {
+				verifReach("renamed-onto-a-key-that-is-itself-renamed")
+			}
 		}
 	}
 	match := createStringMatcher(mapping)
@@ -88,7 +96,9 @@ func verifHarness_C14_indexedFields() {
 	collide := false // the translated key set must again not collide with targets of the inverse
 	for from, to := range c14Invert(mapping) {
 		if _, isKey := there[to]; isKey && from != to {
-			collide = true
+			if next, moved := c14Invert(mapping)[to]; !moved || next == to {
+				collide = true
+			}
 		}
 	}
 	if !collide {
